@@ -122,6 +122,20 @@ def aq_drop(ctx):
         out.append(bad('AQ-drop', 'writes', 'ActiveQueue::drop must move the queue to Panicked and nothing else; extracted: %s' % sorted(writes), fn=fn.name))
     else:
         out.append(ok('AQ-drop', 'writes', 'moves %s to Panicked' % sorted(s for s, _ in writes), fn=fn.name))
+    # ... from every state the queue can be in while its owner runs a job (a waker may have moved Running to AwokenWhileRunning meanwhile)
+    during = set()
+    for fname, _, snaps in events_of(P, 'exec_P'):
+        for ps in snaps:
+            during |= set(ps)
+    if not during:
+        out.append(undecided('AQ-drop', 'covers-all-owned-states', 'no execution site with a known owner state'))
+    else:
+        missing = sorted(s for s in during if (s, 'Panicked') not in writes)
+        if missing:
+            out.append(bad('AQ-drop', 'covers-all-owned-states', 'a job can panic while the queue is %s (a wake-up during the run), and ActiveQueue::drop does not mark such a queue Panicked: '
+                           'the queue is left in an owned state with no owner, and later operations on the object are accepted and never run' % ', '.join(missing), fn=fn.name))
+        else:
+            out.append(ok('AQ-drop', 'covers-all-owned-states', 'marks the queue from each state it can be in while a job runs (%s)' % ', '.join(sorted(during)), fn=fn.name))
     # the marking is dominated by the true edge of thread::panicking()
     from .ordq import result_edges
     from .rules_lw import FieldUse
